@@ -54,6 +54,7 @@ func cmdRun(args []string) {
 	solver := fs.String("solver", defaultSolver(), "solver")
 	timeout := fs.Int("timeout", 60000, "per-query timeout ms")
 	jsonOut := fs.String("json", "", "write result JSON")
+	intArith := fs.Bool("int-arith", false, "encode 64-bit unsigned mul/div in integer arithmetic")
 	fs.Parse(args)
 	p := *pkg
 	if !strings.HasPrefix(p, repoMod) {
@@ -75,6 +76,7 @@ func cmdRun(args []string) {
 	cfg.LogDir = *logDir
 	cfg.SolverKind = *solver
 	cfg.TimeoutMs = *timeout
+	LiftMulDiv = *intArith
 	init := runInits(L, cfg)
 	fmt.Fprintf(os.Stderr, "loaded+init in %.1fs\n", time.Since(t0).Seconds())
 	sp := L.Pkgs[p]
